@@ -78,6 +78,13 @@ def run(chk):
                     getter[v.slice.value] = k.value
                     gguard[v.slice.value] = branch_context(n)
                     msh2 = v.value.id
+    for n in own_nodes(gt.node):      # chars['KEY'] = msh_2[i]
+        if isinstance(n, ast.Assign) and isinstance(n.targets[0], ast.Subscript) and isinstance(n.targets[0].slice, ast.Constant) \
+                and isinstance(n.value, ast.Subscript) and isinstance(n.value.slice, ast.Constant) and \
+                isinstance(n.value.slice.value, int) and isinstance(n.value.value, ast.Name):
+            getter[n.value.slice.value] = n.targets[0].slice.value
+            gguard[n.value.slice.value] = branch_context(n)
+            msh2 = n.value.value.id
     get4 = [getter.get(i) for i in range(4)]
     get5 = [getter.get(i) for i in range(5)]
     # ---- parser
